@@ -12,6 +12,7 @@ from typing import Dict, List, Optional, Set, Tuple
 from .astutil import txt, walk_local
 from .cfg import CFG
 from .index import dotted
+from .astutil import clone
 
 MUTATORS = {"add", "update", "append", "extend", "insert", "pop", "remove", "discard", "clear",
             "setdefault", "sort", "reverse", "popitem", "difference_update", "intersection_update",
@@ -369,7 +370,6 @@ def fact_texts(cfg: CFG, node: ast.AST) -> Set[str]:
 def inline_locals(func: ast.AST, expr: ast.AST, depth: int = 0, skip: Set[str] = frozenset()) -> ast.AST:
     """ a copy of expr in which every local name bound exactly once in func (by a plain assignment of a
         side-effect-free expression) is replaced by that expression - hoisted locals become transparent """
-    import copy
 
     class Inliner(ast.NodeTransformer):
         def visit_Name(self, node: ast.Name) -> ast.AST:
@@ -382,7 +382,7 @@ def inline_locals(func: ast.AST, expr: ast.AST, depth: int = 0, skip: Set[str] =
                                                                               ast.GeneratorExp, ast.Lambda)):
                 return inline_locals(func, values[0], depth + 1, skip | {node.id})
             return node
-    return ast.fix_missing_locations(Inliner().visit(copy.deepcopy(expr)))
+    return ast.fix_missing_locations(Inliner().visit(clone(expr)))
 
 
 def subscript_stores(func: ast.AST, scope: ast.AST) -> List[Tuple[ast.AST, ast.AST]]:
@@ -447,7 +447,6 @@ def facts_nnf(facts: List[Tuple[ast.AST, bool]]):
 def inline_call(repo, rel: str, call: ast.AST) -> Optional[ast.AST]:
     """ the returned expression of a one-statement module-level (or same-class, via self) helper with the
         call's arguments substituted for its parameters; None when the callee is not such a helper """
-    import copy
     if not isinstance(call, ast.Call):
         return None
     name = None
@@ -487,14 +486,13 @@ def inline_call(repo, rel: str, call: ast.AST) -> Optional[ast.AST]:
     class Sub(ast.NodeTransformer):
         def visit_Name(self, node: ast.Name) -> ast.AST:
             if node.id in mapping and isinstance(node.ctx, ast.Load):
-                return copy.deepcopy(mapping[node.id])
+                return clone(mapping[node.id])
             return node
-    return ast.fix_missing_locations(Sub().visit(copy.deepcopy(body[0].value)))
+    return ast.fix_missing_locations(Sub().visit(clone(body[0].value)))
 
 
 def expand_helpers(repo, rel: str, expr: ast.AST, depth: int = 0) -> ast.AST:
     """ expr with every call to a one-statement helper of the same module replaced by the helper's body """
-    import copy
 
     class Expand(ast.NodeTransformer):
         def visit_Call(self, node: ast.Call) -> ast.AST:
@@ -504,7 +502,7 @@ def expand_helpers(repo, rel: str, expr: ast.AST, depth: int = 0) -> ast.AST:
                 if inlined is not None:
                     return expand_helpers(repo, rel, inlined, depth + 1)
             return node
-    return ast.fix_missing_locations(Expand().visit(copy.deepcopy(expr)))
+    return ast.fix_missing_locations(Expand().visit(clone(expr)))
 
 
 def inline_reaching(cfg: CFG, at: ast.AST, expr: ast.AST, depth: int = 0, comprehension_scope: Set[str] = frozenset(),
@@ -512,11 +510,10 @@ def inline_reaching(cfg: CFG, at: ast.AST, expr: ast.AST, depth: int = 0, compre
     """ a copy of `expr` (evaluated at statement `at`) in which a local name is replaced by the value of its
         *unique reaching definition* when that is a plain `name = value` assignment, recursively resolved at the
         defining statement.  Unlike inline_locals this follows names that are re-bound elsewhere in the function. """
-    import copy
     try:
         here = cfg.n(at)
     except KeyError:
-        return copy.deepcopy(expr)
+        return clone(expr)
 
     class Inliner(ast.NodeTransformer):
         def __init__(self) -> None:
@@ -554,4 +551,99 @@ def inline_reaching(cfg: CFG, at: ast.AST, expr: ast.AST, depth: int = 0, compre
             if value is None:
                 return node
             return inline_reaching(cfg, stmt, value, depth + 1, frozenset(self.bound), keep)
-    return ast.fix_missing_locations(Inliner().visit(copy.deepcopy(expr)))
+    return ast.fix_missing_locations(Inliner().visit(clone(expr)))
+
+
+# ---------------------------------------------------------------- propositional reasoning over NNF forms
+def nnf_atoms(form) -> Set[str]:
+    if form[0] == "lit":
+        return {form[1]}
+    out: Set[str] = set()
+    for sub in form[1]:
+        out |= nnf_atoms(sub)
+    return out
+
+
+def nnf_eval(form, env: Dict[str, bool]) -> bool:
+    if form[0] == "lit":
+        return env[form[1]] == form[2]
+    if form[0] == "and":
+        return all(nnf_eval(sub, env) for sub in form[1])
+    return any(nnf_eval(sub, env) for sub in form[1])
+
+
+def nnf_or(forms):
+    return ("or", frozenset(forms))
+
+
+def nnf_not(form):
+    if form[0] == "lit":
+        return ("lit", form[1], not form[2])
+    return ("or" if form[0] == "and" else "and", frozenset(nnf_not(sub) for sub in form[1]))
+
+
+def nnf_equiv(left, right, limit: int = 10):
+    """ (equivalent?, counterexample assignment) by truth table over the atoms (opaque literal texts) """
+    import itertools
+    atoms = sorted(nnf_atoms(left) | nnf_atoms(right))
+    if len(atoms) > limit:
+        raise ValueError(f"too many atoms: {atoms}")
+    for values in itertools.product([False, True], repeat=len(atoms)):
+        env = dict(zip(atoms, values))
+        if nnf_eval(left, env) != nnf_eval(right, env):
+            return False, env
+    return True, None
+
+
+def resolved_facts(cfg: CFG, node: ast.AST, repo=None, rel: Optional[str] = None, fresh_only: bool = False):
+    """ path facts of node with locals replaced by their reaching definitions (at the node) and, when repo/rel are
+        given, one-statement helpers expanded; returned as one NNF conjunction """
+    parts = []
+    for expr, truth in path_facts(cfg, node, fresh_only=fresh_only):
+        anchor = expr if hasattr(expr, "_parent") else node
+        full = inline_reaching(cfg, anchor, expr)
+        if repo is not None and rel is not None:
+            full = expand_helpers(repo, rel, full)
+        parts.append((full, truth))
+    return facts_nnf(parts)
+
+
+def path_conditions(cfg: CFG, node: ast.AST, limit: int = 64):
+    """ exact conditions of the acyclic paths from the entry to node: a list with one [(test expr, truth), ...] per
+        path.  Raises ValueError when a path revisits a node (loop) or there are more than `limit` paths. """
+    target = cfg.n(node)
+    can_reach = {target} | {n.id for n in cfg.nodes if target in cfg.reach([n.id])}
+    out = []
+
+    def walk(cur: int, seen: Tuple[int, ...], conds: Tuple[Tuple[ast.AST, bool], ...]) -> None:
+        if cur == target:
+            out.append(list(conds))
+            if len(out) > limit:
+                raise ValueError("too many paths")
+            return
+        if cur in seen:
+            raise ValueError("loop on a path to the node")
+        for dst, label in cfg.succ[cur]:
+            if dst not in can_reach:
+                continue
+            extra = conds
+            test = cfg.nodes[cur]
+            if test.kind == "test" and label in ("T", "F") and test.ast is not None and hasattr(test.ast, "test"):
+                extra = conds + ((test.ast.test, label == "T"),)
+            walk(dst, seen + (cur,), extra)
+    walk(cfg.entry, (), ())
+    return out
+
+
+def exact_condition(cfg: CFG, node: ast.AST, repo=None, rel: Optional[str] = None):
+    """ NNF disjunction over the exact path conditions of node (locals resolved at each test) """
+    forms = []
+    for conds in path_conditions(cfg, node):
+        parts = []
+        for expr, truth in conds:
+            full = inline_reaching(cfg, expr, expr)
+            if repo is not None and rel is not None:
+                full = expand_helpers(repo, rel, full)
+            parts.append((full, truth))
+        forms.append(facts_nnf(parts))
+    return nnf_or(forms)
